@@ -153,9 +153,9 @@ u2f! { REG_U2F;
     u16_f64: u16 => f64, quick;
     u32_f32: u32 => f32, thorough;
     u32_f64: u32 => f64, thorough;
-    u64_f32: u64 => f32, thorough;
+    u64_f32: u64 => f32, quick;
     u64_f64: u64 => f64, thorough;
-    u128_f32: u128 => f32, thorough;
+    u128_f32: u128 => f32, quick;
     u128_f64: u128 => f64, thorough;
 }
 
@@ -234,11 +234,11 @@ macro_rules! rt {
 rt! { REG_RT;
     rt_u8_u16: u8 => u16, quick, "narrow(widen(x)) == x for all x";
     rt_u8_u32: u8 => u32, quick, "narrow(widen(x)) == x for all x";
-    rt_u8_u64: u8 => u64, thorough, "narrow(widen(x)) == x for all x";
-    rt_u8_u128: u8 => u128, thorough, "narrow(widen(x)) == x for all x";
+    rt_u8_u64: u8 => u64, quick, "narrow(widen(x)) == x for all x";
+    rt_u8_u128: u8 => u128, quick, "narrow(widen(x)) == x for all x";
     rt_u16_u32: u16 => u32, quick, "narrow(widen(x)) == x for all x";
-    rt_u16_u64: u16 => u64, thorough, "narrow(widen(x)) == x for all x";
-    rt_u16_u128: u16 => u128, thorough, "narrow(widen(x)) == x for all x";
+    rt_u16_u64: u16 => u64, quick, "narrow(widen(x)) == x for all x";
+    rt_u16_u128: u16 => u128, quick, "narrow(widen(x)) == x for all x";
     rt_u32_u64: u32 => u64, thorough, "narrow(widen(x)) == x for all x";
     rt_u32_u128: u32 => u128, thorough, "narrow(widen(x)) == x for all x";
     rt_u8_f32: u8 => f32, quick, "uint -> float -> uint == x for all x (f32 has the precision for 8 bits)";
